@@ -35,6 +35,30 @@ def u64(v):
     return v + 2 ** 64 if v < 0 else v
 
 
+def rlim2py(u):
+    return u - 2 ** 64 if u >= 2 ** 63 else u
+
+
+ROOT_CAPS = {"nice": True, "admin": True, "resource": True}
+
+
+def normalise(case):
+    """Defaults for the kernel parameters (older corpus files) and limits as rlim_t (unsigned)."""
+    case.setdefault("caps", dict(ROOT_CAPS))
+    case.setdefault("nr_open", 1048576)
+    case.setdefault("ioget_eff", False)
+    for p in case.get("procs", []):
+        p["rlim"] = [[u64(a), u64(b)] for a, b in p["rlim"]]
+    return case
+
+
+def reported_ioprio(eff, raw, nice):
+    """what ioprio_get reports (kernels >= 5.18: effective class for a stored NONE)"""
+    if eff and (raw >> 13) == 0:
+        return (2 << 13) + (nice + 20) // 5
+    return raw
+
+
 def cpulist(mask):
     """kernel "%*pbl" format of an ascending id list."""
     out, i = [], 0
@@ -52,13 +76,17 @@ class SimKernel:
     def __init__(self, case):
         self.ncpu = case["ncpu"]
         self.nr = case["nr"]
+        self.caps = case["caps"]
+        self.nr_open = case["nr_open"]
+        self.eff = case["ioget_eff"]
         self.order = [p["pid"] for p in case["procs"]]
         self.procs = {p["pid"]: {"nice": p["nice"], "ioprio": p["ioprio"], "mask": list(p["mask"]), "elig": list(p["elig"]),
                                  "rlim": [list(x) for x in p["rlim"]]} for p in case["procs"]}
         self.log = []
 
     def dump(self):
-        return [[pid, p["nice"], p["ioprio"], list(p["mask"]), list(p["elig"]), [list(x) for x in p["rlim"]]]
+        return [[pid, p["nice"], reported_ioprio(self.eff, p["ioprio"], p["nice"]), list(p["mask"]), list(p["elig"]),
+                 [list(x) for x in p["rlim"]]]
                 for pid, p in ((q, self.procs[q]) for q in self.order)]
 
     def _p(self, pid):
@@ -74,11 +102,15 @@ class SimKernel:
         value = _c_int(value)
         p = self._p(pid)
         self.log.append(("setpriority", pid, value))
-        p["nice"] = max(-20, min(19, value))
+        n = max(-20, min(19, value))
+        if n < p["nice"] and not (self.caps["nice"] or 20 - n <= p["rlim"][13][0]):
+            raise _oserr(errno.EACCES)
+        p["nice"] = n
 
     # ---- _psutil_linux
     def proc_ioprio_get(self, pid):
-        raw = self._p(pid)["ioprio"]
+        p = self._p(pid)
+        raw = reported_ioprio(self.eff, p["ioprio"], p["nice"])
         return (raw >> 13, raw & 0x1FFF)
 
     def proc_ioprio_set(self, pid, ioclass, iodata):
@@ -89,6 +121,8 @@ class SimKernel:
         p = self._p(pid)
         self.log.append(("ioprio_set", pid, raw))
         cls, data = raw >> 13, raw & 0x1FFF
+        if cls == 1 and not (self.caps["admin"] or self.caps["nice"]):
+            raise _oserr(errno.EPERM)
         ok = (data < 8) if cls in (1, 2) else True if cls == 3 else (data == 0) if cls == 0 else False
         if not ok:
             raise _oserr(errno.EINVAL)
@@ -136,12 +170,17 @@ class SimKernel:
                     raise OverflowError("Python int too large to convert to C long")
                 vals.append(x)
         p = self._p(pid)
-        old = tuple(p["rlim"][res])
+        old = tuple(rlim2py(x) for x in p["rlim"][res])
         if limits is not None:
             self.log.append(("prlimit", pid, res, vals))
-            if u64(vals[0]) > u64(vals[1]):
-                raise ValueError("current limit exceeds maximum limit")
-            p["rlim"][res] = vals
+            soft, hard = u64(vals[0]), u64(vals[1])
+            if soft > hard:
+                raise ValueError("current limit exceeds maximum limit")      # EINVAL
+            if res == 7 and hard > self.nr_open:
+                raise _oserr(errno.EPERM)
+            if hard > p["rlim"][res][1] and not self.caps["resource"]:
+                raise _oserr(errno.EPERM)
+            p["rlim"][res] = [soft, hard]
         return old
 
 
